@@ -109,7 +109,7 @@ def add_entry(L, rng, workdirs, a, tag, used, kinds=None, spellings=None,
                                              'sub', 'mytrash', 'deep')):
                 break
     used.add((d, name))
-    kind = rng.choice(kinds or (gen.ENTRY_KINDS * 2 + ['tree_fifo', 'tree_fifo', 'fifo', 'socket']))
+    kind = rng.choice(kinds or (gen.ENTRY_KINDS * 2 + ['tree_fifo', 'tree_fifo', 'fifo', 'socket', 'hardlinked']))
     rel = d + '/' + name
     target = None
     tgt_rel = None
